@@ -1,8 +1,10 @@
 package props
 
 import (
+	"bytes"
 	"context"
 	"fmt"
+	"strconv"
 	"strings"
 	"sync"
 	"testing"
@@ -41,6 +43,10 @@ type SyncScenario struct {
 	SoftType bool `json:"soft_type,omitempty"`
 	// ErrKind: what the getter's injected range failures look like (see simGetter.ErrKind)
 	ErrKind int `json:"err_kind,omitempty"`
+	// TwinFirst > 0 ends the history (C03 only) with the terminal event "twin_first": an equivocating twin of the
+	// coming tip, TwinFirst+1 heights above the store head, is accepted over gossip while a Head() request
+	// answering the canonical header of that height is in flight. Either may keep the height - never both.
+	TwinFirst int `json:"twin_first,omitempty"`
 	// Sched, when set, selects the schedule engine (c03sched_test.go); the other fields are unused then.
 	Sched *SyncSchedScenario `json:"sched,omitempty"`
 }
@@ -100,6 +106,9 @@ func genSync(adversarial bool) func(t *rapid.T) SyncScenario {
 		n := rapid.IntRange(5, 40).Draw(t, "nevents")
 		for i := 0; i < n; i++ {
 			s.Events = append(s.Events, genSyncEvent(t, adversarial))
+		}
+		if adversarial {
+			s.TwinFirst = rapid.SampledFrom([]int{0, 0, 0, 1, 2, 3, 6}).Draw(t, "twinfirst")
 		}
 		return s
 	}
@@ -622,6 +631,18 @@ func runSync(t *testing.T, s SyncScenario, c03 bool) (res Result) {
 			}
 		}
 
+		if c03 && s.TwinFirst > 0 {
+			if e.twinFirst(ctx, &res, s.TwinFirst, checkSafety) {
+				res.NonTrivial = true
+				res.label("adv=twin_first")
+				synctest.Wait()
+				return
+			}
+			if res.Verdict != "" {
+				return
+			}
+		}
+
 		// ---- final phase ----
 		if !e.quiesce(600) {
 			res.failf("HARNESS: no quiescence before the final phase")
@@ -709,6 +730,161 @@ func runSync(t *testing.T, s SyncScenario, c03 bool) (res Result) {
 		synctest.Wait()
 	})
 	return res
+}
+
+// twinFirst is the terminal event of a C03 history. The store is in sync at height s; the subjective head goes
+// stale; a Head() caller asks the (slow) trusted getter, which will answer the canonical header T of height
+// h >= s+2. While that request is in flight an equivocating twin F of T - same lineage, valid hash link, other
+// content - arrives over gossip: it verifies against the subjective head like T would and becomes the sync
+// target. Then T comes back (the store head is still s: the range request is slower). Whichever header the
+// Syncer keeps for height h, the Store must hold exactly one header per height: canonical below h, F or T at h,
+// nothing else in the datastore. The canonical chain cannot grow past F, so the history ends here.
+// Reports true when the event ran to its verdict-free end (false: skipped, or a violation was recorded).
+func (e *syncEnv) twinFirst(ctx context.Context, res *Result, k int, checkSafety func(string) bool) bool {
+	const tag = "terminal twin_first"
+	chain := e.chain
+	e.getter.set(func() { e.getter.RangeMax, e.getter.RangeErrs, e.getter.RangeDelay, e.getter.HeadMode = 0, 0, 0, "" })
+	if !e.quiesce(600) {
+		res.failf("HARNESS: no quiescence before %s", tag)
+		return false
+	}
+	if !checkSafety("before " + tag) {
+		return false
+	}
+	sh, err := e.st.Head(ctx)
+	if err != nil || sh.H+uint64(k)+2 >= syncChainLen || sh.H < e.getter.Tip() {
+		return false
+	}
+	h := sh.H + 1 + uint64(k)
+	time.Sleep(4 * time.Second) // the subjective head goes stale
+	e.getter.SetTip(h)
+	time.Sleep(time.Duration(h-sh.H) * e.delta)
+	T := chain.At(h)
+	F := T.Clone()
+	F.Salt = 4545
+	F.Seal()
+	e.getter.set(func() { e.getter.HeadDelay, e.getter.RangeDelay = 300*time.Millisecond, 2*time.Second })
+	var wg sync.WaitGroup
+	wg.Add(1)
+	var hh *vh.Header
+	var herr error
+	go func() {
+		defer wg.Done()
+		hh, herr = e.syncer.Head(ctx)
+	}()
+	synctest.Wait() // Head() waits for the getter's answer
+	gctx, gcancel := context.WithTimeout(ctx, 30*time.Second)
+	verr := e.sub.deliver(gctx, F)
+	gcancel()
+	wg.Wait()
+	e.getter.set(func() { e.getter.HeadDelay, e.getter.RangeDelay = 0, 0 })
+	if herr != nil {
+		res.failf("%s: Syncer.Head failed with an honest getter: %v", tag, herr)
+		return false
+	}
+	if hh != nil && !chain.IsCanonical(hh) && !bytes.Equal(hh.Hash(), F.Hash()) {
+		res.failf("%s: Syncer.Head returned %v: neither the chain's header nor the accepted twin", tag, hh)
+		return false
+	}
+	if !e.quiesce(600) {
+		res.failf("HARNESS: no quiescence at %s", tag)
+		return false
+	}
+	head, herr2 := e.st.Head(ctx)
+	tail, terr := e.st.Tail(ctx)
+	if herr2 != nil || terr != nil {
+		res.failf("%s: store Head err=%v Tail err=%v", tag, herr2, terr)
+		return false
+	}
+	if head.H > h || head.H < sh.H {
+		res.failf("%s: store head %d, want within [%d, %d]", tag, head.H, sh.H, h)
+		return false
+	}
+	if verr != nil && head.H == h && !chain.IsCanonical(head) {
+		res.failf("%s: the twin was refused (%v) and is the store head all the same", tag, verr)
+		return false
+	}
+	var prev *vh.Header
+	for x := tail.H; x <= head.H; x++ {
+		c1, cn := vctx(time.Second)
+		g, err := e.st.GetByHeight(c1, x)
+		cn()
+		if err != nil {
+			res.failf("%s: store has a gap: height %d in [Tail %d, Head %d] is not retrievable: %v", tag, x, tail.H, head.H, err)
+			return false
+		}
+		if !(chain.IsCanonical(g) || (x == h && bytes.Equal(g.Hash(), F.Hash()))) {
+			res.failf("%s: store holds a header at %d that is neither the chain's nor the accepted twin: %v", tag, x, g)
+			return false
+		}
+		if prev != nil && !bytes.Equal(g.Prev, prev.Hash()) {
+			res.failf("%s: header %d does not link to the stored header %d", tag, x, x-1)
+			return false
+		}
+		c2, cn2 := vctx(time.Second)
+		bh, err := e.st.Get(c2, g.Hash())
+		cn2()
+		if err != nil || bh.H != x {
+			res.failf("%s: the header at height %d is not retrievable by its hash: %v", tag, x, err)
+			return false
+		}
+		prev = g
+	}
+	// the raw datastore: one header per height, the index agrees, nothing outside [Tail, Head]
+	perHeight := map[uint64][]string{}
+	index := map[uint64]string{}
+	for key, v := range e.mem.Snapshot() {
+		name := strings.TrimPrefix(key, storePrefix+"/")
+		if name == key || name == "head" || name == "tail" {
+			continue
+		}
+		if isDigits(name) {
+			x, _ := strconv.ParseUint(name, 10, 64)
+			index[x] = strings.ToUpper(fmtHash(v))
+			continue
+		}
+		hd := new(vh.Header)
+		if err := hd.UnmarshalBinary(v); err != nil {
+			res.failf("%s: datastore key %s holds an undecodable header", tag, key)
+			return false
+		}
+		if !(chain.IsCanonical(hd) || bytes.Equal(hd.Hash(), F.Hash())) {
+			res.failf("%s: datastore holds %v: neither the chain's nor the accepted twin", tag, hd)
+			return false
+		}
+		perHeight[hd.H] = append(perHeight[hd.H], strings.ToUpper(fmtHash(hd.Hash())))
+	}
+	for x, hs := range perHeight {
+		if len(hs) != 1 {
+			res.failf("%s: datastore holds %d different headers of height %d (the gossiped twin and the trusted peers' header): one chain means one header per height", tag, len(hs), x)
+			return false
+		}
+		if x < tail.H || x > head.H {
+			res.failf("%s: datastore holds header %d outside [Tail %d, Head %d]", tag, x, tail.H, head.H)
+			return false
+		}
+		if index[x] != hs[0] {
+			res.failf("%s: height index %d -> %s but the stored header of that height is %s", tag, x, index[x], hs[0])
+			return false
+		}
+	}
+	for x := range index {
+		if len(perHeight[x]) == 0 {
+			res.failf("%s: height index %d points at nothing", tag, x)
+			return false
+		}
+	}
+	if verr == nil {
+		res.label("twin_first_accepted")
+	}
+	if head.H == h {
+		if chain.IsCanonical(head) {
+			res.label("twin_first_T_kept")
+		} else {
+			res.label("twin_first_F_kept")
+		}
+	}
+	return true
 }
 
 func runC07(t *testing.T, s SyncScenario) Result {
